@@ -84,6 +84,14 @@ V("C11", "dispatch-over-copy-lazy-flush", "silent", "", "dispatch iterates a cop
 V("C11", "weakmethod", "silent", "", "bound callbacks stored as weakref.WeakMethod",
   ("src/pyhf/events.py", "            callback_ref = weakref.ref(callback.__func__), weakref.ref(\n                callback.__self__\n            )", "            callback.__self__\n            callback_ref = weakref.WeakMethod(callback), None"),
   ("src/pyhf/events.py", "            else:\n                func()(*args, **kwargs)", "            else:\n                live = func()\n                if live is not None:\n                    live(*args, **kwargs)"))
+V("C11", "jax-setup-x64-follows-precision", "fire", "C11.R7", "jax _setup switches x64 to follow the precision: set_backend runs it AFTER the refresh callbacks",
+  ("src/pyhf/tensor/jax_backend.py", '        Run any global setups for the jax lib.\n        """\n', '        Run any global setups for the jax lib.\n        """\n        config.update(\'jax_enable_x64\', self.precision == \'64b\')\n'))
+V("C11", "jax-setup-x64-constant", "silent", "", "jax _setup re-asserts x64 = True (what the import already did)",
+  ("src/pyhf/tensor/jax_backend.py", '        Run any global setups for the jax lib.\n        """\n', '        Run any global setups for the jax lib.\n        """\n        config.update(\'jax_enable_x64\', True)\n'))
+V("C11", "precision-compared-with-default", "fire", "C11.R7", "the change test compares the new precision with the DEFAULT backend's",
+  ("src/pyhf/tensor/manager.py", "        | (new_backend.precision != this.state['current'][0].precision)\n    )\n    optimizer_changed", "        | (new_backend.precision != this.state['default'][0].precision)\n    )\n    optimizer_changed"))
+V("C11", "setup-before-trigger", "silent", "", "the backend's _setup runs before the events are triggered",
+  ("src/pyhf/tensor/manager.py", "    # trigger events\n    if tensorlib_changed:\n        events.trigger(\"tensorlib_changed\")()", "    new_backend._setup()\n    # trigger events\n    if tensorlib_changed:\n        events.trigger(\"tensorlib_changed\")()"))
 V("C11", "rename-refresh", "silent", "", "refresh method renamed consistently",
   ("src/pyhf/modifiers/lumi.py", "        self._precompute()\n        events.subscribe('tensorlib_changed')(self._precompute)", "        self._refresh()\n        events.subscribe('tensorlib_changed')(self._refresh)"),
   ("src/pyhf/modifiers/lumi.py", "    def _precompute(self):", "    def _refresh(self):"))
@@ -707,7 +715,7 @@ V("C12", "samples-not-deduplicated", "fire", "C12.R8", "sample summary keeps rep
   ("src/pyhf/mixins.py", "        self._samples = sorted(list(set(self._samples)))", "        self._samples = sorted(self._samples)"))
 V("C10", "parfield-par-order", "fire", "C10.R5", "parameter field sized by the number of parameter sets",
   ("src/pyhf/modifiers/lumi.py", "            (self.batch_size, pdfconfig.npars)\n            if self.batch_size\n            else (pdfconfig.npars,)", "            (self.batch_size, len(pdfconfig.par_order))\n            if self.batch_size\n            else (len(pdfconfig.par_order),)"))
-V("C11", "backend-recreated-after-test", "fire", "C11.R4", "backend object re-created after the change test",
+V("C11", "backend-recreated-after-test", "silent", "", "a second, redundant re-creation of the backend object after the change test (the first one already made the precisions agree)",
   ("src/pyhf/tensor/manager.py", "    # set new backend\n    this.state['current'] = (new_backend, new_optimizer)", "    if precision is not None and new_backend.precision != precision:\n        new_backend = getattr(BackendRetriever, f\"{new_backend.name:s}_backend\")(**backend_kwargs)\n    # set new backend\n    this.state['current'] = (new_backend, new_optimizer)"))
 OSC, OMI = "src/pyhf/optimize/opt_scipy.py", "src/pyhf/optimize/opt_minuit.py"
 V("C05", "scipy-options-setdefault", "fire", "C05.R3", "per-call solver options written into the optimizer's defaults",
